@@ -43,8 +43,10 @@ func ExecutableDataToPayload(data *engine.ExecutableData, beaconRoot []byte, exe
 }
 
 func PayloadToExecutableData(data *ExecutionPayload) *engine.ExecutableData {
-	if data.Transactions == nil {
-		data.Transactions = [][]byte{}
+	// data is shared with concurrent readers, don't modify it
+	transactions := data.Transactions
+	if transactions == nil {
+		transactions = [][]byte{}
 	}
 
 	res := &engine.ExecutableData{
@@ -61,7 +63,7 @@ func PayloadToExecutableData(data *ExecutionPayload) *engine.ExecutableData {
 		ExtraData:     data.ExtraData,
 		BaseFeePerGas: data.BaseFeePerGas.BigInt(),
 		BlockHash:     common.BytesToHash(data.BlockHash),
-		Transactions:  data.Transactions,
+		Transactions:  transactions,
 		Withdrawals:   []*ethtypes.Withdrawal{},
 		BlobGasUsed:   &data.BlobGasUsed,
 		ExcessBlobGas: &data.ExcessBlobGas,
